@@ -67,6 +67,15 @@ theorem materialise_identity (t : Target) (tmpl : JVal) (steps : List Step) (e :
     (h : materialise (forced t) tmpl steps = some e) : Pinned t e :=
   Rf.materialise_pinned t tmpl steps h
 
+/-! ## the class a function talks through is its own apiConfig's -/
+
+/-- `_prepare_api_config`: every function gets the class of **its own** apiVersion and kind —
+    nothing is shared between functions of the same kind or group (the class is a function of
+    the spec alone), so a second function for another version of the same kind keeps its version -/
+theorem prepared_class_follows_apiConfig (a : ApiConfigSpec) :
+    a.cls.ver = a.apiVersion ∧ a.cls.kind = a.kind ∧ a.cls.plural = a.plural ∧ a.cls.namespaced = a.namespaced :=
+  ⟨rfl, rfl, rfl, rfl⟩
+
 /-! ## what is sent -/
 
 theorem request_of_reconcile {enc : JVal → String} {defNs : String} {cmp : JVal → JVal → Bool} {pp : Bool}
@@ -86,7 +95,7 @@ theorem create_payload_identity (enc : JVal → String) (defNs : String) (cmp : 
     ∃ b, req.body = some b ∧ Pinned rf.target b := by
   rcases Rf.request_cases enc defNs cmp rf owner stored req (request_of_reconcile h) with
     ⟨_, _, _, _, view, p, _, hp, hq⟩ | ⟨live, e, p, _, _, _, _, _, _, hq⟩ | ⟨live, _, hq⟩
-  · obtain ⟨_, _, _, b, hb, hpb, _⟩ :=
+  · obtain ⟨_, _, _, _, b, hb, hpb, _⟩ :=
       Rf.createRequest_spec rf.target rf.api defNs rfl rfl (Rf.createPayload_pinned rf.target enc view _ _ _ hp) hq
     exact ⟨b, hb, hpb⟩
   · simp only [patchRequest, Option.map_eq_some_iff] at hq
@@ -121,15 +130,15 @@ theorem patch_payload_identity (enc : JVal → String) (defNs : String) (cmp : J
 theorem create_addressed_to_identity (enc : JVal → String) (defNs : String) (cmp : JVal → JVal → Bool) (pp : Bool)
     (rf : Rf) (owner : Owner) (stored : Option JVal) (req : Request)
     (h : (reconcile enc defNs cmp pp rf owner stored).request = some req) (hm : req.method = .post) :
-    req.plural = rf.api.plural ∧
+    req.plural = rf.api.plural ∧ req.version = rf.api.ver ∧
     (∀ n, rf.api.namespaced = true → rf.ns = some n → req.nsArg = some (.str n)) ∧
     (rf.api.namespaced = false → req.nsArg = none) ∧
     (∃ b, req.body = some b ∧ metaKey "name" b = some (.str rf.name)) := by
   rcases Rf.request_cases enc defNs cmp rf owner stored req (request_of_reconcile h) with
     ⟨_, _, _, _, view, p, _, hp, hq⟩ | ⟨live, e, p, _, _, _, _, _, _, hq⟩ | ⟨live, _, hq⟩
-  · obtain ⟨_, hpl, _, b, hb, hpb, hns⟩ :=
+  · obtain ⟨_, hpl, hver, _, b, hb, hpb, hns⟩ :=
       Rf.createRequest_spec rf.target rf.api defNs rfl rfl (Rf.createPayload_pinned rf.target enc view _ _ _ hp) hq
-    refine ⟨hpl, ?_, ?_, b, hb, hpb.2.2.1⟩
+    refine ⟨hpl, hver, ?_, ?_, b, hb, hpb.2.2.1⟩
     · intro n hnsd hn
       have := hpb.2.2.2 n hn
       simp [hns, hnsd, this]
@@ -174,20 +183,21 @@ theorem patch_addressed_to_loaded (enc : JVal → String) (defNs : String) (cmp 
     (rf : Rf) (owner : Owner) (stored : JVal) (req : Request)
     (h : (reconcile enc defNs cmp pp rf owner (some stored)).request = some req)
     (hm : req.method = .patch ∨ req.method = .delete) :
-    req.plural = rf.api.plural ∧ req.name = metaKey "name" stored ∧
+    req.plural = rf.api.plural ∧ req.version = rf.api.ver ∧ req.name = metaKey "name" stored ∧
     (metaKey "name" stored = some (.str rf.name) → req.name = some (.str rf.name)) ∧
     (∀ n, rf.api.namespaced = true → rf.ns = some n → req.nsArg = some (.str n)) ∧
     (rf.api.namespaced = false → req.nsArg = none) := by
   have key : ∀ live, Rf.loadedOf rf (some stored) = some live → ∀ n' body,
-      req = ⟨req.method, rf.api.plural, some n', krNamespace rf.api defNs live, body⟩ → metaKey "name" live = some n' →
-      req.plural = rf.api.plural ∧ req.name = metaKey "name" stored ∧
+      req = ⟨req.method, rf.api.plural, some n', krNamespace rf.api defNs live, body, rf.api.ver⟩ →
+      metaKey "name" live = some n' →
+      req.plural = rf.api.plural ∧ req.version = rf.api.ver ∧ req.name = metaKey "name" stored ∧
       (metaKey "name" stored = some (.str rf.name) → req.name = some (.str rf.name)) ∧
       (∀ n, rf.api.namespaced = true → rf.ns = some n → req.nsArg = some (.str n)) ∧
       (rf.api.namespaced = false → req.nsArg = none) := by
     intro live hl n' body hreq hn'
     have hla := loaded_address rf.api stored live rf.ns (by simpa [Rf.loadedOf] using hl)
     have hname : req.name = metaKey "name" stored := by rw [hreq]; simp [← hla.1, hn']
-    refine ⟨by rw [hreq], hname, fun hs => by rw [hname, hs], ?_, ?_⟩
+    refine ⟨by rw [hreq], by rw [hreq], hname, fun hs => by rw [hname, hs], ?_, ?_⟩
     · intro n hc hn
       rw [hreq]
       simp [krNamespace, hc, hla.2 n hc hn]
